@@ -70,6 +70,12 @@ CLAIMS = {
             "Real SpaceKeeper (NewSpaceKeeperV1) over real massdb.v1 header-only files with a deterministic fake wallet: every multiset of <=2 existing spaces over bl{24,26,28,30} x 2 directories x {used,removed} (thorough: sizes 3-4 too) x every request of the alphabet (BySize over all a*S24+b*S26+c*S28 sums +-1 byte and boundary values; ByPath with 1-2 directories; ByBitLength count maps; ByFlags), plus all pairs of a 43-request alphabet; each case ends with a second keeper on the same directories. Oracle: size bounds, reuse-before-create, new files only in requested directories, exact counts, rejected requests leave the listing unchanged, selection found again after restart.",
             "requests that the RPC layer's pre-checks refuse before calling the keeper, the private auto-create switch, and a per-directory entry below the minimum next to a valid one are diagnostics, not violations (see DESIGN §C15); free-disk figures from the real statfs: only far-below / far-beyond requests are judged",
             "DESIGN.md §C15"),
+    "C14": ("model_checking",
+            "stateless enumeration of all schedules of 2-4 goroutines at transaction-boundary granularity under the quiescence scheduler + brute-force linearizability check per schedule; separate free-running -race pass",
+            "qsched",
+            "17 (thorough 20) scenarios of 2-4 goroutines x 1-2 operations colliding on the same keystores (key issuance, address generation, signing, lookups, listing, remark, export, lock/unlock/IsLocked, create/delete): every complete schedule with scheduling points at operation starts and at BeginTx/Commit/BeginReadTx of the wallet store is executed on the real wallet; each call/return history is checked for linearizability against the sequential reference by exhaustive search over the orders consistent with real time; the running and the reopened wallet must equal the witness's final state; returned keys pairwise distinct (C06 concurrent part); panics and calls that never return are violations. Each scenario body also runs 60x free under the race detector: a report with a frame in the wallet package is a violation (this pass samples schedules; it is the oracle for data races only).",
+            "finer interleavings than transaction boundaries are unobservable for methods holding the manager mutex; the race detector reports what it observes",
+            "DESIGN.md §C14"),
     "C12": ("fault_enumeration",
             "exhaustive fault injection: every storage event of every (reached state, mutating operation) pair x {failed write/commit, crash before, crash after} on the real wallet over a fault-injecting db.DB wrapper",
             "seqx",
